@@ -1,4 +1,4 @@
-import Arimaa.Gen.Rs
+import Arimaa.Gen.RsBase
 import Arimaa.Impl.Engine
 
 /-!
@@ -8,7 +8,7 @@ Part 1: the functions that cannot panic.  A change of the Rust text of any of th
 and the corresponding theorem here is re-checked against the new text.
 -/
 namespace Arimaa.RsAgree
-open Arimaa Arimaa.Gen Arimaa.Gen.Rs Arimaa.Rt
+open Arimaa Arimaa.Gen Arimaa.Gen.RsBase Arimaa.Rt
 
 theorem blt_eq_decide (a b : Nat) : Nat.blt a b = decide (a < b) := by
   cases h : Nat.blt a b
